@@ -16,6 +16,20 @@
    The firing path: a cron entry's job runs (OTick / OTickAll) -> the string it sends ->
    hook.Manager.HandleScheduleEvent (hook_manager.go:304-316): every hook whose controller
    says CanHandleEvent gets HandleEvent -> one task per BindingExecutionInfo.
+
+   The channel between the two: sm.ScheduleCh = make(chan string, 1), ONE channel shared by
+   all crontabs.  The cron library starts every due entry's job in a goroutine of its own
+   (cron.go run(): go e.Job.Run()), the job is the closure of Add:
+       func() { ...; sm.ScheduleCh <- newEntry.Crontab }
+   a BLOCKING send.  The single consumer (ManagerEventsHandler.Start, it also serves the
+   kubernetes events) may be busy when several jobs are started: the first send fills the
+   buffer, every other job parks in its send until the consumer receives; nothing is dropped
+   and nothing is sent twice ([chan], OStart / ODrain).  Which parked sender goes next is the
+   Go runtime's choice: [ch_recv] takes it as a parameter, the executable model picks the
+   oldest, what is received is compared as a multiset.
+   sm.Stop() cancels the manager's context; only the goroutine of Start() looks at it (and
+   stops the cron scheduler): the job closure does not - a job that is run after the
+   context was cancelled sends all the same (OStop).
    No proofs here. *)
 From Verif Require Import Common.
 
@@ -96,6 +110,65 @@ Definition sm_run (valid : ct -> bool) (h : list smop) : sm := fold_left (sm_ste
 Definition cron_count (c : ct) (s : sm) : nat :=
   length (filter (fun e => ct_eqb (snd e) c) (cron s)).
 
+(* ------------------------------------------------------------------ ScheduleCh *)
+
+(* make(chan string, 1) and the goroutines parked in [sm.ScheduleCh <- crontab]:
+   [buf] = the buffer (oldest first), [parked] = what each parked job is sending *)
+Record chan := mkCh { buf : list ct; parked : list ct }.
+Definition ch_cap : nat := 1.
+Definition ch_empty : chan := mkCh [] [].
+(* everything sent and not yet received *)
+Definition ch_pending (k : chan) : list ct := buf k ++ parked k.
+
+(* one job goroutine reaches [sm.ScheduleCh <- c] while nobody is receiving: the value
+   goes into the buffer if there is room (the job returns), otherwise the goroutine parks *)
+Definition ch_send (k : chan) (c : ct) : chan :=
+  if Nat.ltb (length (buf k)) ch_cap then mkCh (buf k ++ [c]) (parked k)
+  else mkCh (buf k) (parked k ++ [c]).
+(* the jobs [cs] are started together; they reach the send in the order of [cs] *)
+Definition ch_start (cs : list ct) (k : chan) : chan := fold_left ch_send cs k.
+
+(* the n-th element (the first one if n is beyond the end) and the others *)
+Fixpoint extract {A} (n : nat) (l : list A) : option (A * list A) :=
+  match l with
+  | [] => None
+  | x :: r => match n with
+              | O => Some (x, r)
+              | S n' => match extract n' r with
+                        | Some (y, r') => Some (y, x :: r')
+                        | None => Some (x, r)
+                        end
+              end
+  end.
+
+(* the consumer receives once: the oldest buffered value; the freed slot is taken by ONE
+   parked sender (the [pick]-th: the runtime's choice), whose job then returns.  With an
+   empty buffer a parked sender hands its value over directly. *)
+Definition ch_recv (pick : nat) (k : chan) : option (ct * chan) :=
+  match buf k with
+  | c :: b => Some (c, match extract pick (parked k) with
+                       | Some (s, r) => mkCh (b ++ [s]) r
+                       | None => mkCh b []
+                       end)
+  | [] => match extract pick (parked k) with
+          | Some (s, r) => Some (s, mkCh [] r)
+          | None => None
+          end
+  end.
+(* the consumer receives until nothing arrives any more *)
+Fixpoint ch_drain (fuel : nat) (picks : nat -> nat) (k : chan) : list ct * chan :=
+  match fuel with
+  | O => ([], k)
+  | S f => match ch_recv (picks f) k with
+           | None => ([], k)
+           | Some (c, k') => let '(r, k'') := ch_drain f picks k' in (c :: r, k'')
+           end
+  end.
+Definition ch_drain_with (picks : nat -> nat) (k : chan) : list ct * chan :=
+  ch_drain (length (ch_pending k)) picks k.
+(* the executable model: the oldest parked sender goes first *)
+Definition ch_drain_all (k : chan) : list ct * chan := ch_drain_with (fun _ => O) k.
+
 (* ------------------------------------------------------------------ controller *)
 
 (* htypes.ScheduleConfig *)
@@ -160,7 +233,13 @@ Inductive op :=
 | ODisable (h : N)        (* hook h's controller: DisableScheduleBindings *)
 | OFire (c : ct)          (* the string c arrives as a firing: every controller is asked CanHandleEvent / HandleEvent *)
 | OTick (n : N)           (* the n-th registered cron entry (from 0) fires: its job runs, what it sends is dispatched *)
-| OTickAll.               (* every registered cron entry fires once, in the cron library's order *)
+| OTickAll                (* every registered cron entry fires once, in the cron library's order *)
+| OStart (ns : list N)    (* the cron entries at the positions ns (repeats allowed, positions without an entry
+                             ignored) fire at the same instant: their jobs are started together, each in its
+                             own goroutine, while the consumer of Ch() is busy (nobody receives) *)
+| ODrain                  (* the consumer catches up: it receives until nothing arrives any more and handles
+                             every string it receives like hook.Manager.HandleScheduleEvent *)
+| OStop.                  (* sm.Stop(): the manager's context is cancelled *)
 
 (* [i_hooks]: the schedule bindings of each hook (hook h = position h, from 0);
    [i_invalid]: the crontab strings cron.Parse rejects (oracle: the real parser, asked by the harness);
@@ -171,7 +250,8 @@ Record input := mkIn {
 Definition mem_ct (c : ct) (l : list ct) : bool := existsb (ct_eqb c) l.
 Definition valid_of (inv : list ct) (c : ct) : bool := negb (mem_ct c inv).
 
-Record sys := mkSys { s_links : list links; s_sm : sm }.
+(* [s_ch]: the schedule channel; [s_stopped]: sm.ctx is cancelled *)
+Record sys := mkSys { s_links : list links; s_sm : sm; s_ch : chan; s_stopped : bool }.
 
 Fixpoint set_nth {A} (n : nat) (x : A) (l : list A) : list A :=
   match l, n with
@@ -184,7 +264,10 @@ Fixpoint set_nth {A} (n : nat) (x : A) (l : list A) : list A :=
 Record obs := mkObs {
   o_entries : list (ct * option (N * list N));  (* for c in alphabet: Entries[c] = (EntryID, ids) *)
   o_cron : list (N * ct);                       (* cron entries: (EntryID, crontab string sent) *)
-  o_fire : list (bool * list info)              (* OFire / OTick / OTickAll: per hook CanHandleEvent, HandleEvent *)
+  o_fire : list (bool * list info);             (* OFire / OTick / OTickAll / ODrain: per hook CanHandleEvent, HandleEvent *)
+  o_recv : list ct;                             (* OTick / OTickAll / ODrain: the strings the consumer received (order: see ch_recv) *)
+  o_chlen : N;                                  (* len(sm.ScheduleCh) *)
+  o_parked : N                                  (* job goroutines parked in their send *)
 }.
 
 (* hook_manager.go:304-316 HandleScheduleEvent(crontab): for every hook,
@@ -199,30 +282,52 @@ Definition tick_hook (cs : list ct) (m : links) : bool * list info :=
    flat_map (fun c => snd (dispatch_hook c m)) cs).
 Definition tick_all (cs : list ct) (ls : list links) : list (bool * list info) := map (tick_hook cs) ls.
 
-Definition sys_step (i : input) (s : sys) (o : op) : sys * list (bool * list info) :=
+(* what the cron entries at the positions [ns] send *)
+Definition fired_strings (cr : list (N * ct)) (ns : list N) : list ct :=
+  flat_map (fun n => match nth_error cr (N.to_nat n) with Some (_, c) => [c] | None => [] end) ns.
+
+Definition with_ch (s : sys) (k : chan) : sys := mkSys (s_links s) (s_sm s) k (s_stopped s).
+
+(* result of a step: the new state, the per-hook answers, the strings received.
+   OTick / OTickAll: the consumer first catches up with whatever is still pending (nothing,
+   unless an OStart came before without an ODrain), then one job at a time is run and what
+   it sends is received at once. *)
+Definition sys_step (i : input) (s : sys) (o : op) : sys * (list (bool * list info) * list ct) :=
   let valid := valid_of (i_invalid i) in
   match o with
-  | OAdd c id => (mkSys (s_links s) (sm_add valid (s_sm s) c id), [])
-  | ORemove c id => (mkSys (s_links s) (sm_remove (s_sm s) c id), [])
+  | OAdd c id => (mkSys (s_links s) (sm_add valid (s_sm s) c id) (s_ch s) (s_stopped s), ([], []))
+  | ORemove c id => (mkSys (s_links s) (sm_remove (s_sm s) c id) (s_ch s) (s_stopped s), ([], []))
   | OEnable h =>
       let n := N.to_nat h in
       let '(m, s') := enable valid (nth n (i_hooks i) []) (nth n (s_links s) [], s_sm s) in
-      (mkSys (set_nth n m (s_links s)) s', [])
+      (mkSys (set_nth n m (s_links s)) s' (s_ch s) (s_stopped s), ([], []))
   | ODisable h =>
       let n := N.to_nat h in
       let '(m, s') := disable (nth n (i_hooks i) []) (nth n (s_links s) [], s_sm s) in
-      (mkSys (set_nth n m (s_links s)) s', [])
-  | OFire c => (s, map (fun m => (can_handle c m, handle_event c m)) (s_links s))
+      (mkSys (set_nth n m (s_links s)) s' (s_ch s) (s_stopped s), ([], []))
+  | OFire c => (s, (map (fun m => (can_handle c m, handle_event c m)) (s_links s), []))
   | OTick n =>
       match nth_error (cron (s_sm s)) (N.to_nat n) with
-      | Some (_, c) => (s, dispatch c (s_links s))      (* the job sends c on ScheduleCh *)
-      | None => (s, [])
+      | Some (_, c) =>                                  (* the job sends c on ScheduleCh *)
+          let '(r, k) := ch_drain_all (s_ch s) in
+          (with_ch s k, (tick_all (r ++ [c]) (s_links s), r ++ [c]))
+      | None => (s, ([], []))
       end
-  | OTickAll => (s, tick_all (map snd (cron (s_sm s))) (s_links s))
+  | OTickAll =>
+      let '(r, k) := ch_drain_all (s_ch s) in
+      let cs := r ++ map snd (cron (s_sm s)) in
+      (with_ch s k, (tick_all cs (s_links s), cs))
+  | OStart ns =>                                        (* go e.Job.Run() for each of them; the job closure never looks at sm.ctx *)
+      (with_ch s (ch_start (fired_strings (cron (s_sm s)) ns) (s_ch s)), ([], []))
+  | ODrain =>
+      let '(r, k) := ch_drain_all (s_ch s) in
+      (with_ch s k, (tick_all r (s_links s), r))
+  | OStop => (mkSys (s_links s) (s_sm s) (s_ch s) true, ([], []))
   end.
 
-Definition observe (i : input) (s : sys) (f : list (bool * list info)) : obs :=
-  mkObs (map (fun c => (c, entries (s_sm s) c)) (i_alphabet i)) (cron (s_sm s)) f.
+Definition observe (i : input) (s : sys) (f : list (bool * list info) * list ct) : obs :=
+  mkObs (map (fun c => (c, entries (s_sm s) c)) (i_alphabet i)) (cron (s_sm s)) (fst f) (snd f)
+        (N.of_nat (length (buf (s_ch s)))) (N.of_nat (length (parked (s_ch s)))).
 
 Fixpoint run_from (i : input) (s : sys) (ops : list op) : list obs :=
   match ops with
@@ -230,5 +335,5 @@ Fixpoint run_from (i : input) (s : sys) (ops : list op) : list obs :=
   | o :: r => let '(s', f) := sys_step i s o in observe i s' f :: run_from i s' r
   end.
 
-Definition sys_init (i : input) : sys := mkSys (map (fun _ => []) (i_hooks i)) sm_init.
+Definition sys_init (i : input) : sys := mkSys (map (fun _ => []) (i_hooks i)) sm_init ch_empty false.
 Definition run_model (i : input) : list obs := run_from i (sys_init i) (i_ops i).
